@@ -71,7 +71,13 @@ func gopanicCmd(args []string) int {
 					rec.Panic = fmt.Sprint(r)
 				}
 			}()
-			l, err := drv.LoadInProcess(c.Src, gen.AnalysisRT)
+			load := func() (*drv.Loaded, error) {
+				if c.LibPath != "" {
+					return drv.LoadInProcessExtra(c.AnSrc, gen.AnalysisRT, []drv.ExtraPkg{{Path: c.LibPath, Src: c.LibSrc}})
+				}
+				return drv.LoadInProcess(c.Src, gen.AnalysisRT)
+			}
+			l, err := load()
 			if err != nil {
 				rec.LoadErr = err.Error()
 				return
@@ -93,7 +99,7 @@ func gopanicCmd(args []string) int {
 				return names, n
 			}
 			rec.Reported, rec.Creators = parse(captureStdout(func() { maypanic.MayPanicAnalyzer(l.Prog, nil, true) }))
-			l2, _ := drv.LoadInProcess(c.Src, gen.AnalysisRT)
+			l2, _ := load()
 			rec.ReportedX, _ = parse(captureStdout(func() { maypanic.MayPanicAnalyzer(l2.Prog, []string{"qq-no-such-dir"}, true) }))
 		}()
 		o.emit(rec)
